@@ -461,10 +461,10 @@ fn raw_gate_families(sink: &mut Sink, o: &mut Oracle, st: &mut Stats, allowance:
             for cap in [0usize, 2, 3, n / 2, n - 2, n - 1, n, n + 1] {
                 for chunk in [1usize, usize::MAX] {
                     let f = Fault { end: n, tail: Tail::Eof, cap: Some(cap), chunk };
-                    // the DECODED text is longer than the raw input when characters of three UTF-8 bytes dominate: ChunkedChars'
-                    // own count of decoded bytes then refuses an input whose raw size fits (its own error, not the gate's)
+                    // the DECODED text is longer than the raw input when characters of three UTF-8 bytes dominate; since fix 784e913
+                    // only the gate's count of RAW bytes decides (ChunkedChars behind it has no cap of its own)
                     let decoded_over = n <= cap && text.len() > cap;
-                    if !decoded_over { gate_case(sink, &raw, &f); }
+                    gate_case(sink, &raw, &f);
                     let mut rd = SchedReader::new(&raw, &[], chunk, n, Tail::Eof);
                     let r = serde_saphyr::from_reader_with_options::<_, serde_json::Value>(&mut rd, opts(Some(cap)));
                     sink.count("utf16.cap_runs");
@@ -524,17 +524,29 @@ fn raw_gate_families(sink: &mut Sink, o: &mut Oracle, st: &mut Stats, allowance:
             for k in 0..=n {
                 for chunk in [1usize, usize::MAX] { gate_case(sink, &raw, &Fault { end: k, tail: Tail::Eof, cap: None, chunk }); }
             }
-            // every cut INSIDE a multi-byte character of UTF-8 input that starts with a byte-order mark: an error, as without the
-            // mark (the external decoder transcodes marked UTF-8 input with replacement instead of passing it through)
+            // every cut INSIDE a multi-byte character of UTF-8 input that starts with a byte-order mark: an error from all three
+            // entry points, as without the mark (since fix cbb7ef9 the decoder hands marked UTF-8 on as it is, minus the mark,
+            // and ChunkedChars refuses the cut sequence; before, the decoder transcoded it with replacement: U+FFFD)
             if with_bom {
                 for k in 4..n {
                     if std::str::from_utf8(&raw[..k]).is_ok() { continue; }
-                    for chunk in [1usize, usize::MAX] {
+                    for chunk in [1usize, 2, usize::MAX] {
                         let r = serde_saphyr::from_reader_with_options::<_, serde_json::Value>(SchedReader::new(&raw, &[], chunk, k, Tail::Eof), opts(None));
                         sink.count("utf8.bom_truncated_inside_character");
                         *nontrivial += 1;
                         if let Ok(v) = &r { o.fail("C10-utf8-bom-truncated-lossy", &format!("UTF-8 input with byte-order mark cut at byte {k} of {n} (inside a multi-byte character) returned a value"), &raw[..k], &format!("ok {v}"), "err"); }
+                        let rc = serde_saphyr::with_deserializer_from_reader_with_options(SchedReader::new(&raw, &[], chunk, k, Tail::Eof), opts(None), |d| <IgnoredAny as serde::Deserialize>::deserialize(d));
+                        if rc.is_ok() { o.fail("C10-utf8-bom-truncated-lossy", &format!("with_deserializer_from_reader: UTF-8 input with byte-order mark cut at byte {k} of {n} (inside a multi-byte character) returned a value"), &raw[..k], "ok", "err"); }
+                        let mut rd = SchedReader::new(&raw, &[], chunk, k, Tail::Eof);
+                        let its: Vec<bool> = serde_saphyr::read_with_options::<_, serde_json::Value>(&mut rd, opts(None)).take(100).map(|x| x.is_ok()).collect();
+                        if !its.iter().any(|ok| !ok) { o.fail("C10-utf8-bom-truncated-lossy", &format!("read: UTF-8 input with byte-order mark cut at byte {k} of {n} (inside a multi-byte character) yielded no Err item"), &raw[..k], &format!("{its:?}"), "an Err item"); }
                     }
+                }
+                // marked UTF-8 that is complete is read exactly like the same text without the mark
+                let plain = serde_saphyr::from_reader_with_options::<_, serde_json::Value>(SchedReader::whole(text.as_bytes()), opts(None)).map_err(|e| err_kind(&e));
+                for chunk in [1usize, 2, usize::MAX] {
+                    let marked = serde_saphyr::from_reader_with_options::<_, serde_json::Value>(SchedReader::new(&raw, &[], chunk, n, Tail::Eof), opts(None)).map_err(|e| err_kind(&e));
+                    if marked != plain { o.fail("C10-utf8-bom-changes-valid-input", "complete UTF-8 input with byte-order mark read differently from the same text without the mark", &raw, &format!("{marked:?}"), &format!("{plain:?}")); }
                 }
             }
         }
@@ -692,7 +704,7 @@ fn generate(a: &Args) -> i32 {
         "measured_max_pull_beyond_cap": st.max_over_cap,
         "measured_max_pull_beyond_cap_case": st.max_over_cap_case,
         "allowance_bound_checked": allowance,
-        "rule": "reader side: hand corpus + generated tag-free/merge-free multi-document streams (incl. `%` directive lines, so that faults and caps cut the input inside a directive) x EVERY fault position k in 0..=len (48 sampled positions for longer documents in quick tier) x {reader fails forever with kind Other, fails once (Other, ConnectionReset), clean EOF at k (includes EOF inside a code point), fails with kind UnexpectedEof forever/once} x chunkings {1, 3, whole} and x every cap in 0..=len+2 x chunkings {1, whole}; for each configuration the hook reader_items_with_cell gives the parser items and the pulls at which the error cell was set; compared with the Lean protocol model: result of from_reader_with_options::<IgnoredAny> (ok / error kind), the item list of read_with_options::<IgnoredAny> (ok / error kind per item). Oracle: cell set or cap breach or EOF inside a code point => Err (single) / an Err item (iterator); closure reader helper = from_reader; cap >= length changes nothing; bytes pulled <= cap + allowance (= 1 probe byte of RawGate + 1 KiB diagnostic read-ahead of the ring reader; measured on a 150 KB input with caps 0..64 KiB, with and without BOM, and on a 157 KB UTF-16 input); a reader error of any kind => Err. Raw-byte gate (`iofault gate`): UTF-16 LE/BE texts (incl. surrogate pairs in the middle / at the end) cut at EVERY byte position x chunkings {1, 3, whole} (+ a failing call after the cut), caps {0, 2, 3, n/2, n-2, n-1, n, n+1} on the RAW length, UTF-8 with and without BOM x caps raw-4..raw+1 x chunkings {1, 2, whole}, and every corpus document x every cap: compared with Model/RawGate.lean: how the raw stream ended (eof / kind of the first error in the cell), bytes pulled from the caller's reader, outcome class (err after a fault, else the class of from_str on the decoded text); oracle: EVERY UTF-16 cut inside a code unit or after a high surrogate => Err from from_reader / closure reader / an Err item from read; raw > cap => Err, raw <= cap => unaffected. writer side: fault-free write calls recorded, then for every k the k-th write fails (kinds Other, BrokenPipe), plus random schedules of short writes / Interrupted / zero-length accepts; compared with the model: result kind and accepted bytes; oracle: accepted bytes are a prefix of the fault-free output, Err is the I/O error. Non-trivial = reader configurations with a fault or an active cap.",
+        "rule": "reader side: hand corpus + generated tag-free/merge-free multi-document streams (incl. `%` directive lines, so that faults and caps cut the input inside a directive) x EVERY fault position k in 0..=len (48 sampled positions for longer documents in quick tier) x {reader fails forever with kind Other, fails once (Other, ConnectionReset), clean EOF at k (includes EOF inside a code point), fails with kind UnexpectedEof forever/once} x chunkings {1, 3, whole} and x every cap in 0..=len+2 x chunkings {1, whole}; for each configuration the hook reader_items_with_cell gives the parser items and the pulls at which the error cell was set; compared with the Lean protocol model: result of from_reader_with_options::<IgnoredAny> (ok / error kind), the item list of read_with_options::<IgnoredAny> (ok / error kind per item). Oracle: cell set or cap breach or EOF inside a code point => Err (single) / an Err item (iterator); closure reader helper = from_reader; cap >= length changes nothing; bytes pulled <= cap + allowance (= 1 probe byte of RawGate + 1 KiB diagnostic read-ahead of the ring reader; measured on a 150 KB input with caps 0..64 KiB, with and without BOM, and on a 157 KB UTF-16 input); a reader error of any kind => Err. Raw-byte gate (`iofault gate`): UTF-16 LE/BE texts (incl. surrogate pairs in the middle / at the end) cut at EVERY byte position x chunkings {1, 3, whole} (+ a failing call after the cut), caps {0, 2, 3, n/2, n-2, n-1, n, n+1} on the RAW length, UTF-8 with and without BOM x caps raw-4..raw+1 x chunkings {1, 2, whole}, and every corpus document x every cap: compared with Model/RawGate.lean: how the raw stream ended (eof / kind of the first error in the cell), bytes pulled from the caller's reader, outcome class (err after a fault, else the class of from_str on the decoded text); oracle: EVERY UTF-16 cut inside a code unit or after a high surrogate, and every cut inside a multi-byte character of UTF-8 input WITH byte-order mark => Err from from_reader / closure reader / an Err item from read; complete marked UTF-8 = the same text without the mark; raw > cap => Err, raw <= cap => unaffected for every encoding (incl. UTF-16 text of 3-byte characters, whose decoded size exceeds its raw size). writer side: fault-free write calls recorded, then for every k the k-th write fails (kinds Other, BrokenPipe), plus random schedules of short writes / Interrupted / zero-length accepts; compared with the model: result kind and accepted bytes; oracle: accepted bytes are a prefix of the fault-free output, Err is the I/O error. Non-trivial = reader configurations with a fault or an active cap.",
     }));
     0
 }
@@ -712,20 +724,57 @@ fn probe(_a: &Args) -> i32 {
         };
         println!("read {:?} end={} tail={:?} cap={:?} => items {:?} pulled={}", text, end, tail, cap, items, rd.pulled);
     }
-    // raw bytes through the whole pipeline
+    // raw bytes through the whole pipeline: value / error (kind and message), iterator items, bytes pulled, cell
     let show = |label: &str, raw: &[u8], cap: Option<usize>, chunk: usize| {
         let mut rd = SchedReader::new(raw, &[], chunk, raw.len(), Tail::Eof);
         let r = serde_saphyr::from_reader_with_options::<_, serde_json::Value>(&mut rd, opts(cap));
         let (_, fired) = h::reader_items_with_cell(SchedReader::new(raw, &[], chunk, raw.len(), Tail::Eof), cap, 1000);
-        println!("{label} raw={} cap={cap:?} chunk={chunk} => {} pulled={} fired={}", hex_bytes(raw), match &r { Ok(v) => format!("Ok({v})"), Err(e) => format!("Err({})", err_kind(e)) }, rd.pulled, fires_tok(&fired));
+        let mut o2 = opts(cap); o2.crop_radius = 0;
+        let msg = match serde_saphyr::from_reader_with_options::<_, serde_json::Value>(SchedReader::new(raw, &[], chunk, raw.len(), Tail::Eof), o2) { Ok(_) => String::new(), Err(e) => format!(" msg={:?}", e.to_string()) };
+        let mut rd3 = SchedReader::new(raw, &[], chunk, raw.len(), Tail::Eof);
+        let items: Vec<String> = serde_saphyr::read_with_options::<_, serde_json::Value>(&mut rd3, opts(cap)).take(20)
+            .map(|x| match x { Ok(v) => format!("Ok({v})"), Err(e) => format!("Err({})", err_kind(&e)) }).collect();
+        let s = std::str::from_utf8(raw).ok().map(|t| match serde_saphyr::from_str_with_options::<serde_json::Value>(t, opts(None)) { Ok(v) => format!("Ok({v})"), Err(e) => format!("Err({})", err_kind(&e)) });
+        println!("{label} raw={} cap={cap:?} chunk={} => {} pulled={} fired={} iter={items:?} from_str={s:?}{msg}", hex_bytes(raw), if chunk == usize::MAX { 0 } else { chunk },
+            match &r { Ok(v) => format!("Ok({v})"), Err(e) => format!("Err({})", err_kind(e)) }, rd.pulled, fires_tok(&fired));
     };
-    show("utf8-bom cut inside é", b"\xEF\xBB\xBFa: \xC3", None, usize::MAX);
-    show("utf8-bom invalid byte", b"\xEF\xBB\xBFa: \xFFz", None, usize::MAX);
-    show("utf8 cut inside é", b"a: \xC3", None, usize::MAX);
-    let mut cjk: Vec<u8> = vec![0xFF, 0xFE];
-    for u in "a: \u{65e5}\u{672c}\u{8a9e}\u{65e5}\u{672c}\u{8a9e}".encode_utf16() { cjk.extend_from_slice(&u.to_le_bytes()); }
-    for cap in [cjk.len() - 1, cjk.len(), cjk.len() + 1, cjk.len() + 4, 21] { show("utf16 cjk", &cjk, Some(cap), usize::MAX); show("utf16 cjk", &cjk, Some(cap), 1); }
-    show("utf16 bom only", &[0xFF, 0xFE], None, 1);
-    show("utf16 bom + 1", &[0xFF, 0xFE, 0x61], None, 1);
+    let u16le = |t: &str| { let mut v = vec![0xFF, 0xFE]; for u in t.encode_utf16() { v.extend_from_slice(&u.to_le_bytes()); } v };
+    let u16be = |t: &str| { let mut v = vec![0xFE, 0xFF]; for u in t.encode_utf16() { v.extend_from_slice(&u.to_be_bytes()); } v };
+    for chunk in [1usize, usize::MAX] {
+        show("marked utf8 valid", "\u{feff}a: \u{e9}\u{20ac}\u{1F600}\nb: [1, 2]\n".as_bytes(), None, chunk);
+        show("marked utf8 multi-doc", "\u{feff}a: 1\n---\nb: \u{e9}\n".as_bytes(), None, chunk);
+        show("mark only", b"\xEF\xBB\xBF", None, chunk);
+        show("mark + newline", b"\xEF\xBB\xBF\n", None, chunk);
+        show("double utf8 mark", "\u{feff}\u{feff}a: 1\n".as_bytes(), None, chunk);
+        show("mark in the middle", "a: \u{feff}x\n".as_bytes(), None, chunk);
+        show("partial mark EF", b"\xEF", None, chunk);
+        show("partial mark EF BB", b"\xEF\xBB", None, chunk);
+        show("partial mark EF BB 61", b"\xEF\xBB\x61", None, chunk);
+        show("marked utf8 cut inside e-acute", b"\xEF\xBB\xBFa: \xC3", None, chunk);
+        show("marked utf8 cut inside euro", b"\xEF\xBB\xBFa: x\xE2\x82", None, chunk);
+        show("marked utf8 invalid byte mid", b"\xEF\xBB\xBFa: \xFFz\nb: 1\n", None, chunk);
+        show("marked utf8 overlong", b"\xEF\xBB\xBFa: \xC0\xAFz\n", None, chunk);
+        show("marked utf8 surrogate", b"\xEF\xBB\xBFa: \xED\xA0\x80z\n", None, chunk);
+        show("unmarked utf8 invalid byte mid", b"a: \xFFz\nb: 1\n", None, chunk);
+        show("unmarked utf8 cut inside e-acute", b"a: \xC3", None, chunk);
+        show("utf16le valid", &u16le("a: x\u{1F600}\u{e9}\n"), None, chunk);
+        show("utf16be valid", &u16be("a: x\u{1F600}\u{e9}\n"), None, chunk);
+        show("utf16le double mark", &u16le("\u{feff}a: 1\n"), None, chunk);
+        show("utf16be double mark", &u16be("\u{feff}a: 1\n"), None, chunk);
+        show("utf16le mark only+1 unit", &u16le("a"), None, chunk);
+        show("utf16 bom only", &[0xFF, 0xFE], None, chunk);
+        show("utf16le lone low surrogate", &[0xFF, 0xFE, 0x61, 0, 0x3A, 0, 0x20, 0, 0x00, 0xDC, 0x7A, 0], None, chunk);
+        // caps: UTF-8 with the limit inside a code point, marked and unmarked, multi-document
+        let t = "k: \u{e9}\u{20ac}\u{1F600}\n";
+        for cap in 3..=t.len() + 1 { show("utf8 cap", t.as_bytes(), Some(cap), chunk); }
+        let tm = format!("{}{t}", "\u{feff}");
+        for cap in 5..=tm.len() + 1 { show("marked utf8 cap", tm.as_bytes(), Some(cap), chunk); }
+        let md = "a: 1\n---\nb: \u{e9}\n---\nc: 3\n";
+        for cap in 0..=md.len() + 1 { show("multi-doc cap", md.as_bytes(), Some(cap), chunk); }
+        let cjk = u16le("a: \u{65e5}\u{672c}\u{8a9e}\u{65e5}\u{672c}\u{8a9e}");
+        for cap in [cjk.len() - 1, cjk.len(), cjk.len() + 1, cjk.len() + 4] { show("utf16 cjk", &cjk, Some(cap), chunk); }
+        let cjkm = u16be("a: \u{65e5}\n---\nb: \u{672c}\u{8a9e}\u{65e5}\u{672c}\u{8a9e}\n");
+        for cap in [cjkm.len() - 12, cjkm.len() - 1, cjkm.len(), cjkm.len() + 1] { show("utf16be cjk multi-doc", &cjkm, Some(cap), chunk); }
+    }
     0
 }
